@@ -424,6 +424,8 @@ func runC03(c *Ctx) {
 	}
 	c.Floor(r1, 14)
 	checkSignatureHeaderSet(c, "signature-header-set")
+	checkSignatureAtOffsetZero(c, "signature-at-offset-zero")
+	c.Floor("signature-at-offset-zero", 1)
 	// buffer discipline in the stripping routines
 	checkBufioAlias(c, "view-not-retained", []string{objShort})
 	// partial lines: bufio.ErrBufferFull must not be swallowed in plumbing/object
